@@ -1973,10 +1973,13 @@ fn round_undriven(seed: u64, hb: &Heartbeat, tot: &Mutex<Tot>, prop: &str) {
 #[cfg(feature = "f_deadlock")]
 mod dn {
     use rsactor::{Actor, ActorRef, Message};
+    use std::sync::Arc;
     use std::time::Duration;
     pub struct N;
-    pub struct Probe(pub ActorRef<N>, pub u64, pub u64);
-    pub struct Sleepy(pub u64);
+    /// ask `.0` with a 1 ms timeout for a request whose handler parks on `.1` (so the ask ends by its timeout)
+    pub struct Probe(pub ActorRef<N>, pub Arc<tokio::sync::Semaphore>);
+    /// park until released, then - still inside this handler - ask `.1` (the former asker, idle by then)
+    pub struct Park(pub Arc<tokio::sync::Semaphore>, pub ActorRef<N>);
     pub struct Relay(pub ActorRef<N>);
     pub struct Ping;
     impl Actor for N {
@@ -1992,17 +1995,17 @@ mod dn {
             1
         }
     }
-    impl Message<Sleepy> for N {
-        type Reply = ();
-        async fn handle(&mut self, m: Sleepy, _: &ActorRef<Self>) {
-            tokio::time::sleep(Duration::from_millis(m.0)).await;
+    impl Message<Park> for N {
+        type Reply = bool;
+        async fn handle(&mut self, m: Park, _: &ActorRef<Self>) -> bool {
+            let _ = tokio::time::timeout(Duration::from_secs(10), m.0.acquire()).await;
+            m.1.ask(Ping).await.is_ok()
         }
     }
     impl Message<Probe> for N {
         type Reply = bool;
-        async fn handle(&mut self, m: Probe, _: &ActorRef<Self>) -> bool {
-            // an in-actor ask that ends by its timeout (the callee sleeps longer)
-            m.0.ask_with_timeout(Sleepy(m.1), Duration::from_millis(m.2)).await.is_ok()
+        async fn handle(&mut self, m: Probe, me: &ActorRef<Self>) -> bool {
+            m.0.ask_with_timeout(Park(m.1, me.clone()), Duration::from_millis(1)).await.is_ok()
         }
     }
     impl Message<Relay> for N {
@@ -2040,15 +2043,21 @@ fn round_dlrace(seed: u64, hb: &Heartbeat, tot: &Mutex<Tot>, prop: &str) {
             tasks.push(tokio::spawn(async move {
                 let mut n = 0u64;
                 for _ in 0..iters {
-                    // callee sleeps 2-3 ms, the in-actor ask gives up after 1 ms
-                    if let Ok(false) = a.ask(Probe(b.clone(), 2 + pr.below(2), 1)).await {
-                        n += 1;
-                    }
-                    // wait until the callee is free again, then let it ask the former asker back
-                    let _ = b.ask(Ping).await;
-                    match b.ask(Relay(a.clone())).await {
+                    // A's in-actor ask to B ends by its 1 ms timeout (B's handler is parked); A's handler returns
+                    let gate = Arc::new(tokio::sync::Semaphore::new(0));
+                    match a.ask(Probe(b.clone(), gate.clone())).await {
+                        Ok(false) => n += 1,
                         Ok(true) => {}
-                        other => return Err(format!("after actor A's in-actor ask_with_timeout to B had timed out and B had finished, B asked A (idle): {other:?}")),
+                        Err(e) => return Err(format!("the probing actor failed: {e:?}")),
+                    }
+                    if pr.chance(30) {
+                        tokio::task::yield_now().await;
+                    }
+                    // only now is B released: still inside the stale request's handler it asks the idle A, which must simply work
+                    gate.add_permits(1);
+                    match b.ask(Ping).await {
+                        Ok(_) => {}
+                        Err(e) => return Err(format!("A's in-actor ask_with_timeout to B had timed out and A was idle again; B, released afterwards, asked A from the stale request's handler and died: {e:?}")),
                     }
                 }
                 Ok(n)
